@@ -366,7 +366,7 @@ class PyRng:
 TREAP_TIERS = {
     "C03": {"quick": 1_000_000, "thorough": 20_000_000},
     # (controlled-priority runs watched for heap order, real-priority process runs, of which at n = 10^6)
-    "C16": {"quick": (200_000, 120, 0), "thorough": (4_000_000, 900, 20)},
+    "C16": {"quick": (200_000, 120, 6), "thorough": (4_000_000, 900, 30)},
 }
 
 N_HISTORIES = 10
